@@ -49,6 +49,33 @@ def run(ctx, worker=_worker, prop=PROP, labels=LABELS, plan_fn=None, universe_fn
     res = ctx.pmap(worker, jobs)
     tot, hs = blockcheck.merge(ctx, res, prop)
     finish(ctx, tot, hs, per_depth, samples)
+    if prop == 'C01':
+        node_level(ctx)
+
+
+def _names_worker(_):
+    from .. import thrscen
+    return thrscen.node_level_names()
+
+
+def _node_worker(names):
+    from .. import thrscen
+    return thrscen.node_level_rejections(names)
+
+
+def node_level(ctx):
+    """"the chain state the node held before the attempt is left exactly as it was", at the level of the node: the same
+    rule-breaking blocks arrive from a peer"""
+    names = ctx.pmap(_names_worker, [0, 1])[0]
+    k = max(1, min(len(names), ctx.ncpu))
+    n = 0
+    for cnt, bad in ctx.pmap(_node_worker, [names[i::k] for i in range(k)]):
+        n += cnt
+        for key, what, nm, pre in bad:
+            ctx.violation(key + ':' + pre, what, {'node_level': nm, 'pre': pre})
+    ctx.cov['node_level_rejected_deliveries'] = n
+    ctx.cov['rule'] += ("; plus every rule-breaking candidate delivered by a peer to a real node (start-up state / after its own "
+                        "miner found a block): chain state, pool and store unchanged by the rejection")
 
 
 def finish(ctx, tot, hs, per_depth, samples, extra_rule=''):
@@ -75,6 +102,10 @@ def finish(ctx, tot, hs, per_depth, samples, extra_rule=''):
 
 def replay(data, ctx, cfgf=cfg):
     ledger.setup()
+    if 'node_level' in data:
+        from .. import thrscen
+        n, bad = thrscen.node_level_rejections([data['node_level']])
+        return [(k + ':' + pre, w) for k, w, nm, pre in bad]
     kind = data.get('uni') or 'easy'
     return replay_one(cfgf(), ledger.tx_universe(kind), data, now_for(kind))
 
